@@ -13,10 +13,10 @@ CONSTANTS
   Root <- MC_Root
   CandU <- MC_CandU_life
   AbortSets <- MC_AbortSets_one
-  MaxTicks = 3
+  MaxTicks = 4
   MaxCands = 2
   MaxCandsA = 1
-  MaxAborts = 1
+  MaxAborts = 0
   MaxJumps = 0
   PreNames = {"hub"}
   Export = TRUE
